@@ -1,7 +1,7 @@
 """Send-side rules: W1 W2 W5 W15 P1a-g P2a-e O1(send) O2(send) C13map  (DESIGN.md section 4)."""
 import re
 from core import CheckError, short, short_fn
-from engine import has_release, has_acquire
+from engine import is_const, has_release, has_acquire
 
 FLAVOURS = ('BCast', 'MPMC')
 WRITE_OPS = {'store', 'swap', 'fetch_add', 'fetch_sub', 'fetch_or', 'fetch_and', 'fetch_xor',
@@ -120,16 +120,20 @@ def send_entry(ctx):
 
 
 def run(ctx):
+    ctx.step(_run, ctx)
+
+
+def _run(ctx):
     F = ctx.F
     root = send_entry(ctx)
     no_reader_bit = _no_reader_bit(ctx)
     for fl in FLAVOURS:
         g = ctx.graph(root, fl)
         x = g.x
-        _p1(ctx, g, x, root, fl)
-        _p2(ctx, g, x, root, fl, no_reader_bit)
-    _who_may_write(ctx, root)
-    _clone_send(ctx)
+        ctx.step(_p1, ctx, g, x, root, fl)
+        ctx.step(_p2, ctx, g, x, root, fl, no_reader_bit)
+    ctx.step(_who_may_write, ctx, root)
+    ctx.step(_clone_send, ctx)
 
 
 # --------------------------------------------------------------------------------------------
@@ -163,16 +167,12 @@ def _p1(ctx, g, x, root, fl):
             flavour=fl, sub='kinds')
     # fullness switches
     FS = []
-    for sid in x.switches():
-        e = g.strip(g.switch_expr(sid))
-        if e[0] != 'bin' or e[1] not in ('Eq', 'Ne'):
-            continue
-        la = x.loads_in(e[2])
-        lb = x.loads_in(e[3])
+    for t in x.tests(('Eq',)):
+        la = x.loads_in(t.a)
+        lb = x.loads_in(t.b)
         for (p, q) in ((la, lb), (lb, la)):
-            if any(a.nid in H for a in p) and any(a.on('MultiQueue.tail_cache', 'ReaderPos.pos_data') for a in q) \
-                    and not any(a.on('ReadCursor.readers') and False for a in q):
-                FS.append((sid, e[1]))
+            if any(a.nid in H for a in p) and any(a.on('MultiQueue.tail_cache', 'ReaderPos.pos_data') for a in q):
+                FS.append((t.sid, t))
                 break
     ctx.floor('P1a', len({x.site(s) for s, _ in FS}), 2, 'fullness tests (head-N == tail) in the send graph (%s)' % fl)
     # the tail a send is re-tested against must be current: the scan result, the value a *failed*
@@ -195,9 +195,9 @@ def _p1(ctx, g, x, root, fl):
     fs_nodes = x.expand_sites([s for s, _ in FS])
     notfull_edges = set()
     full_edges = set()
-    for sid, op in FS:
-        notfull_edges.update(x.switch_edges(sid, 'zero' if op == 'Eq' else 'nonzero'))
-        full_edges.update(x.switch_edges(sid, 'nonzero' if op == 'Eq' else 'zero'))
+    for sid, t in FS:
+        notfull_edges.update(t.false)
+        full_edges.update(t.true)
     readers_loads = {a.nid for a in x.atoms_on('ReadCursor.readers', ops={'load'})}
     pin_switches = [sid for sid in x.switches()
                     if any(a.on('RefCnt.refcnt') for a in x.loads_in(g.switch_expr(sid)))]
@@ -232,19 +232,13 @@ def _p1(ctx, g, x, root, fl):
                 flavour=fl, where=where, sub=isub + '|edge')
         # ---- P1c: pinned slot refuses
         if has_pins:
-            okedges = set()
-            for sid in pin_switches:
-                e = g.strip(g.switch_expr(sid))
-                # check_ref(): refcnt == 0  => true means free
-                pol = 'nonzero'
-                if e[0] == 'bin' and e[1] == 'Ne':
-                    pol = 'zero'
-                src = []
-                for a in x.loads_in(e):
-                    if a.on('RefCnt.refcnt'):
-                        src = index_sources(x, g.call_args(a.nid)[0]) or []
-                if src and all(s.nid in H for s in src):
-                    okedges.update(x.switch_edges(sid, pol))
+            # check_ref(): the pin count of the claimed slot, compared with zero (in whatever form)
+            def _pin_load(e_):
+                if e_[0] != 'call' or x.rep(e_[1]) not in x.atoms or not x.atoms[x.rep(e_[1])].on('RefCnt.refcnt'):
+                    return False
+                src = index_sources(x, g.call_args(e_[1])[0]) or []
+                return bool(src) and all(s.nid in H for s in src)
+            okedges, _nz, _hit = x.zero_tests(_pin_load)
             ok = bool(okedges) and x.dom(okedges, C)
             ctx.add('P1c', 'T-DOM', fn, ok,
                     'claim dominated by the "slot not pinned" edge (pin count of the slot indexed by the claimed transaction)' if ok
@@ -320,11 +314,8 @@ def _p1(ctx, g, x, root, fl):
             ok = False
             msg = 'overwritten value is not read out for dropping'
             if reads and tag_sw:
-                untagged = set()
-                for sid in tag_sw:
-                    e = g.strip(g.switch_expr(sid))
-                    pol = 'zero' if (e[0] == 'bin' and e[1] == 'Ne') else 'nonzero'
-                    untagged.update(x.switch_edges(sid, pol))
+                untagged, _t, _h = x.zero_tests(lambda e_: e_[0] == 'bin' and e_[1] == 'BitAnd' and
+                                                any(a.on('QueueEntry.wraps') for a in x.loads_in(e_)), within=set(tag_sw))
                 # read iff untagged: read dominated by untagged edge; from untagged edge the write is not reachable without the read
                 c1 = all(x.dom(untagged, r) for r in reads)
                 c2 = all(not x.reaches(e_, w, blocked=set(reads)) for e_ in untagged for w in myW)
@@ -363,12 +354,8 @@ def _p1(ctx, g, x, root, fl):
         okv = len(e[4]) == 1 and g.strip(e[4][0]) == payload
         ctx.add('P1f', 'T-FLOW', fn, okv, 'refused payload is handed back unchanged in the error' if okv else
                 'Full does not carry the payload parameter', flavour=fl, where=g.where(nid), sub=sub)
-        pin_kind = False
-        for sid in pin_switches:
-            e2 = g.strip(g.switch_expr(sid))
-            pol = 'zero' if not (e2[0] == 'bin' and e2[1] == 'Ne') else 'nonzero'
-            if x.dom(set(x.switch_edges(sid, pol)), nid):
-                pin_kind = True
+        _z, pinned_edges, _h = x.zero_tests(lambda e_: e_[0] == 'call' and x.rep(e_[1]) in x.atoms and x.atoms[x.rep(e_[1])].on('RefCnt.refcnt'))
+        pin_kind = bool(pinned_edges) and x.dom(pinned_edges, nid)
         if pin_kind:
             ctx.add('P1c', 'T-GUARD', fn, True, 'Full on a pinned slot', flavour=fl, where=g.where(nid), sub=sub)
             continue
@@ -427,25 +414,22 @@ def _p2(ctx, g, x, root, fl, no_reader_bit):
     if 'Uni' not in vnames or 'Multi' not in vnames:
         raise CheckError('anchor: QueueState::{Uni,Multi}')
     uni = str(vnames.index('Uni'))
-    uni_edges = set()
-    for sid in x.switches():
-        e = g.strip(g.switch_expr(sid))
-        if e[0] == 'discr':
-            inner = g.strip(e[1])
-            if inner[0] == 'call' and re.search(r'Cell(::<.*>)?::get$', g.call_name(inner[1]) or '') \
-                    and any('InnerSend.state' in p for p in g.locpaths(g.call_args(inner[1])[0])):
-                uni_edges.update(x.switch_edges(sid, uni))
-    one_edges = set()
+    def _is_state(e_):
+        if e_[0] != 'discr':
+            return False
+        inner = g.strip(e_[1])
+        return inner[0] == 'call' and bool(re.search(r'Cell(::<.*>)?::get$', g.call_name(inner[1]) or '')) \
+            and any('InnerSend.state' in p for p in g.locpaths(g.call_args(inner[1])[0]))
+    uni_edges, _f, _h = x.eq_tests(lambda a_, b_: _is_state(a_) and is_const(b_, uni))
+
+    def _is_writers(e_):
+        return e_[0] == 'call' and x.rep(e_[1]) in x.atoms and x.atoms[x.rep(e_[1])].on('MultiQueue.writers') and x.atoms[x.rep(e_[1])].op == 'load'
+    one_edges, _f, _h = x.eq_tests(lambda a_, b_: _is_writers(a_) and is_const(b_, 1))
     wload = None
-    for sid in x.switches():
-        e = g.strip(g.switch_expr(sid))
-        if e[0] == 'bin' and e[1] in ('Eq', 'Ne'):
-            for (p, q) in ((e[2], e[3]), (e[3], e[2])):
-                p, q = g.strip(p), g.strip(q)
-                if p[0] == 'call' and p[1] in x.atoms and x.atoms[p[1]].on('MultiQueue.writers') and x.atoms[p[1]].op == 'load' \
-                        and q[0] == 'c' and str(q[1]) == '1':
-                    one_edges.update(x.switch_edges(sid, 'nonzero' if e[1] == 'Eq' else 'zero'))
-                    wload = p[1]
+    for t_ in _h:
+        for o_ in (t_.a, t_.b):
+            if _is_writers(o_):
+                wload = x.rep(o_[1])
     for c in claims:
         if c.op in CAS_OPS:
             continue
@@ -482,15 +466,15 @@ def _p2(ctx, g, x, root, fl, no_reader_bit):
         ok = x.dom(signodes, c.nid)
         ctx.add('P2c', 'T-DOM', root, ok, 'signal word examined before the claim' if ok else 'claim reachable without examining the signal word',
                 flavour=fl, where=g.where(c.nid), sub='i%d' % g.nodes[c.nid].inst)
-    nr_edges = set()
-    for sid in x.switches():
-        e = g.strip(g.switch_expr(sid))
-        if e[0] == 'bin' and e[1] in ('Ne', 'Eq'):
-            l, r = g.strip(e[2]), g.strip(e[3])
-            if l[0] == 'bin' and l[1] == 'BitAnd' and r[0] == 'c' and str(r[1]) == '0':
-                m, k = g.strip(l[2]), g.strip(l[3])
-                if k[0] == 'c' and str(k[1]) == no_reader_bit and m[0] == 'call' and m[1] in signodes:
-                    nr_edges.update(x.switch_edges(sid, 'nonzero' if e[1] == 'Ne' else 'zero'))
+    def _nr_bit(e_):
+        if e_[0] != 'bin' or e_[1] != 'BitAnd':
+            return False
+        for m, k in ((g.strip(e_[2]), g.strip(e_[3])), (g.strip(e_[3]), g.strip(e_[2]))):
+            if is_const(k, no_reader_bit) and m[0] == 'call' and x.rep(m[1]) in signodes:
+                return True
+        return False
+    _z, nr_edges, _h = x.zero_tests(_nr_bit)
+    _sigfree, _nz, _h = x.zero_tests(lambda e_: e_[0] == 'call' and x.rep(e_[1]) in signodes)
     ctx.add('C13map', 'T-GUARD', root, bool(nr_edges), 'the send entry point tests the no-reader bit of the signal word' if nr_edges else
             'the send entry point never tests the no-reader bit (value %s) of the signal word it loaded' % no_reader_bit, flavour=fl, sub='tested')
     for c in claims:
@@ -498,13 +482,7 @@ def _p2(ctx, g, x, root, fl, no_reader_bit):
         for e_ in nr_edges:
             sw = g.nodes[e_].edge[0]
             notnr.update(s_ for s_ in g.nodes[sw].succs if s_ not in nr_edges)
-        sigfree = set()
-        for sid in x.switches():
-            e = g.strip(g.switch_expr(sid))
-            if e[0] == 'bin' and e[1] in ('Ne', 'Eq'):
-                l, r = g.strip(e[2]), g.strip(e[3])
-                if l[0] == 'call' and l[1] in signodes and r[0] == 'c' and str(r[1]) == '0':
-                    sigfree.update(x.switch_edges(sid, 'zero' if e[1] == 'Ne' else 'nonzero'))
+        sigfree = set(_sigfree)
         ok = bool(nr_edges) and x.dom(notnr | sigfree, c.nid)
         ctx.add('C13map', 'T-DOM', root, ok, 'claim only after the signal word was seen clear / without the no-reader bit' if ok else
                 'claim %s reachable without having tested the no-reader bit' % x.describe(c.nid), flavour=fl, where=g.where(c.nid),
@@ -530,22 +508,13 @@ def _p2(ctx, g, x, root, fl, no_reader_bit):
     # P2d: notify after a successful send when the waiter needs it
     pubs = [a.nid for a in x.atoms_on('QueueEntry.wraps', ops=WRITE_OPS)]
     notifies = set(x.ext_calls(r'wait::Wait::notify$'))
-    nn_false = set()
-    for sid in x.switches():
-        e = g.strip(g.switch_expr(sid))
-        if any(s[0] == 'fld' and s[2] == 'MultiQueue.needs_notify' for s in g.walk(e)) and e[0] != 'bin':
-            nn_false.update(x.switch_edges(sid, 'zero'))
+    nn_false, nn_true, _h = x.zero_tests(lambda e_: e_[0] != 'bin' and any(s_[0] == 'fld' and s_[2] == 'MultiQueue.needs_notify' for s_ in g.walk(e_)))
     for p in pubs:
         ok = x.must(p, notifies | nn_false)
         ctx.add('P2d', 'T-MUST', root, ok, 'after publication: notify unless needs_notify is false' if ok else
                 'a path from publication %s to return skips waiter.notify() although needs_notify may be true' % x.describe(p),
                 flavour=fl, where=g.where(p), sub='i%d' % g.nodes[p].inst)
     # P14-part: notify only behind needs_notify
-    nn_true = set()
-    for sid in x.switches():
-        e = g.strip(g.switch_expr(sid))
-        if any(s[0] == 'fld' and s[2] == 'MultiQueue.needs_notify' for s in g.walk(e)) and e[0] != 'bin':
-            nn_true.update(x.switch_edges(sid, 'nonzero'))
     for n in notifies:
         ok = x.dom(nn_true, n)
         ctx.add('P14n', 'T-GUARD', root, ok, 'notify is called only when the waiter needs notification' if ok else
